@@ -444,6 +444,146 @@ theorem C07_push_fits (X : Ctx) (s : St) (es : List Elem) (e : Elem) (h : Abs X 
   obtain ⟨v', hr, habs, hsp⟩ := push_fits X s es e h hd hroom
   exact ⟨_, hr, habs, hsp, rfl, rfl, rfl⟩
 
+
+/-- **C07: the spare-capacity views have exactly `capacity() - len()` slots** (and `split_at_spare_mut`'s first half
+    exactly `len()`); reading them off touches nothing -/
+theorem C07_spare_exact (X : Ctx) (s : St) (es : List Elem) (h : Abs X s.v es) :
+    Vec.spare X s = (.ok ((hsOf s.v s.sys.allocIdx).C - es.length), s) ∧
+    Vec.split_spare X s = (.ok (es.length, (hsOf s.v s.sys.allocIdx).C - es.length), s) := by
+  have hL : (hsOf s.v s.sys.allocIdx).L = es.length := h.len_eq
+  by_cases hC : (hsOf s.v s.sys.allocIdx).C = 0
+  · have hnil : es = [] := by
+      cases hd : s.v.isDefault with
+      | true => exact (h.sentinel hd).2
+      | false =>
+        obtain ⟨b, _, _, _, hlc, hel, _⟩ := h.alloc hd
+        have : s.v.cap = 0 := by simpa [GS.C, hsOf, hd] using hC
+        exact List.eq_nil_of_length_eq_zero (by omega)
+    subst hnil
+    have h1 : VM.lift X (spare_capacity_mut_pre X.env) s = (.ok (.ret 0), s) :=
+      lift_read X _ s _ (by unfold spare_capacity_mut_pre; simp [capacity_run, GM.bind_run, hC])
+    have h2 : VM.lift X (split_at_spare_mut_pre X.env) s = (.ok (.ret 0), s) :=
+      lift_read X _ s _ (by unfold split_at_spare_mut_pre; simp [capacity_run, GM.bind_run, hC])
+    constructor
+    · unfold Vec.spare; simp only [VM.bind_run, h1, VM.pure_run, hC]; rfl
+    · unfold Vec.split_spare; simp only [VM.bind_run, h2, VM.pure_run, hC]; rfl
+  · have hd : s.v.isDefault = false := by
+      cases hd : s.v.isDefault
+      · rfl
+      · simp [GS.C, hsOf, hd] at hC
+    obtain ⟨b, hb, hl, hs, hlc, hel, hinit⟩ := h.alloc hd
+    have hp := as_mut_ptr_run X.env (hsOf s.v s.sys.allocIdx) hd b.lay s.v.cap hl
+    have h1 : VM.lift X (spare_capacity_mut_pre X.env) s =
+        (.ok (.cont ⟨(hsOf s.v s.sys.allocIdx).C, es.length⟩), s) :=
+      lift_read X _ s _ (by
+        unfold spare_capacity_mut_pre
+        simp only [capacity_run, len_run, GM.bind_run, hL, GM.pure_run, GM.ite_run, beq_iff_eq, hC, if_false])
+    have h2 : VM.lift X (split_at_spare_mut_pre X.env) s =
+        (.ok (.cont ⟨(hsOf s.v s.sys.allocIdx).C, .at (dataOff s.v.align), es.length⟩), s) :=
+      lift_read X _ s _ (by
+        unfold split_at_spare_mut_pre
+        simp only [capacity_run, len_run, GM.bind_run, hL, hp, GM.pure_run, GM.ite_run, beq_iff_eq, hC, if_false]
+        rfl)
+    constructor
+    · unfold Vec.spare; simp only [VM.bind_run, h1, VM.pure_run]
+    · unfold Vec.split_spare; simp only [VM.bind_run, h2, VM.pure_run]
+
+/-- what both spare-capacity entry points compute before they build their slices: nothing for a vector without
+    capacity, otherwise (len, capacity - len) -/
+theorem spare_room_run (X : Ctx) (viaSplit : Bool) (s : St) (es : List Elem) (h : Abs X s.v es) :
+    Vec.spareRoom X viaSplit s =
+      (.ok (if (hsOf s.v s.sys.allocIdx).C = 0 then (0, 0) else (es.length, (hsOf s.v s.sys.allocIdx).C - es.length)), s) := by
+  unfold Vec.spareRoom
+  have hL : (hsOf s.v s.sys.allocIdx).L = es.length := h.len_eq
+  by_cases hC : (hsOf s.v s.sys.allocIdx).C = 0
+  · rw [if_pos hC]
+    cases viaSplit with
+    | true =>
+      have h1 : VM.lift X (split_at_spare_mut_pre X.env) s = (.ok (.ret 0), s) :=
+        lift_read X _ s _ (by unfold split_at_spare_mut_pre; simp [capacity_run, GM.bind_run, hC])
+      simp only [if_true, VM.bind_run, h1, VM.pure_run]
+    | false =>
+      have h1 : VM.lift X (spare_capacity_mut_pre X.env) s = (.ok (.ret 0), s) :=
+        lift_read X _ s _ (by unfold spare_capacity_mut_pre; simp [capacity_run, GM.bind_run, hC])
+      simp only [Bool.false_eq_true, if_false, VM.bind_run, h1, VM.pure_run]
+  · rw [if_neg hC]
+    have hd : s.v.isDefault = false := by
+      cases hd : s.v.isDefault
+      · rfl
+      · simp [GS.C, hsOf, hd] at hC
+    obtain ⟨b, hb, hl, hs, hlc, hel, hinit⟩ := h.alloc hd
+    cases viaSplit with
+    | true =>
+      have hp := as_mut_ptr_run X.env (hsOf s.v s.sys.allocIdx) hd b.lay s.v.cap hl
+      have h1 : VM.lift X (split_at_spare_mut_pre X.env) s =
+          (.ok (.cont ⟨(hsOf s.v s.sys.allocIdx).C, .at (dataOff s.v.align), es.length⟩), s) :=
+        lift_read X _ s _ (by
+          unfold split_at_spare_mut_pre
+          simp only [capacity_run, len_run, GM.bind_run, hL, hp, GM.pure_run, GM.ite_run, beq_iff_eq, hC, if_false]
+          rfl)
+      simp only [if_true, VM.bind_run, h1, VM.pure_run]
+    | false =>
+      have h1 : VM.lift X (spare_capacity_mut_pre X.env) s =
+          (.ok (.cont ⟨(hsOf s.v s.sys.allocIdx).C, es.length⟩), s) :=
+        lift_read X _ s _ (by
+          unfold spare_capacity_mut_pre
+          simp only [capacity_run, len_run, GM.bind_run, hL, GM.pure_run, GM.ite_run, beq_iff_eq, hC, if_false])
+      simp only [Bool.false_eq_true, if_false, VM.bind_run, h1, VM.pure_run]
+
+/-- writing new elements into the spare slots and publishing them -/
+theorem fillTail_spec (X : Ctx) (s : St) (es xs : List Elem) (h : Abs X s.v es) (hd : s.v.isDefault = false)
+    (hfit : es.length + xs.length ≤ s.v.cap) :
+    ∃ v', Vec.fillTail X es.length xs s = (.ok xs.length, { s with v := v' }) ∧ Abs X v' (es ++ xs) ∧ SamePlace s.v v' := by
+  obtain ⟨b, hb, hl, hs, hlc, hel, hinit⟩ := h.alloc hd
+  have h4 : VM.lift X (as_mut_ptr X.env) s = (.ok (.at (dataOff s.v.align)), s) :=
+    lift_read X _ s _ (as_mut_ptr_run X.env _ hd b.lay s.v.cap hl)
+  obtain ⟨v2, hw, habs2, hlen2, hcap2, hd2, hal2, hbid2, hlay2⟩ := write_tail_abs X s es xs h hd hfit
+  have h5 := lift_set_len X (es.length + xs.length) { s with v := v2 } hd2
+  refine ⟨{ v2 with len := es.length + xs.length }, ?_, habs2, ⟨hcap2, hal2, by show v2.isDefault = _; rw [hd2, hd], ?_⟩⟩
+  · unfold Vec.fillTail
+    simp only [VM.bind_run, h4, hw, h5, VM.pure_run]
+  · show v2.blk.map (fun b => (b.bid, b.lay)) = s.v.blk.map (fun b => (b.bid, b.lay))
+    cases hv : v2.blk <;> cases hsb : s.v.blk <;> simp [hv, hsb] at hbid2 hlay2 ⊢
+    exact ⟨hbid2, hlay2⟩
+
+/-- **C07: `spare_capacity_mut()` / `split_at_spare_mut()` describe exactly the unused tail.** Writing `min(k, spare)`
+    new elements through the slice the API hands out and then `set_len` appends exactly those elements: the slice
+    starts right behind the last element and is `capacity() - len()` long (a longer one would be an out-of-block
+    write, a misplaced one would overwrite or skip a slot); same block, same capacity, no allocator traffic. -/
+theorem C07_fill_spare (X : Ctx) (viaSplit : Bool) (k : Nat) (val : Int) (s : St) (es : List Elem) (h : Abs X s.v es) :
+    ∃ s' new, Vec.fill_spare X viaSplit k val s = (.ok (min k ((hsOf s.v s.sys.allocIdx).C - es.length)), s') ∧
+      Abs X s'.v (es ++ new) ∧
+      new.map (·.val) = (List.range (min k ((hsOf s.v s.sys.allocIdx).C - es.length))).map (fun (i : Nat) => val + (i : Int)) ∧
+      (s.v.isDefault = false → SamePlace s.v s'.v) ∧ Calm s s' := by
+  have hroom := spare_room_run X viaSplit s es h
+  unfold Vec.fill_spare
+  simp only [VM.bind_run, hroom]
+  by_cases hC : (hsOf s.v s.sys.allocIdx).C = 0
+  · simp only [hC, if_true, Nat.zero_sub, Nat.min_zero, VM.pure_run]
+    exact ⟨s, [], rfl, by simpa using h, by simp, fun _ => SamePlace.refl _, Calm.refl _⟩
+  · simp only [hC, if_false]
+    have hd : s.v.isDefault = false := by
+      cases hd : s.v.isDefault
+      · rfl
+      · simp [GS.C, hsOf, hd] at hC
+    have hCc : (hsOf s.v s.sys.allocIdx).C = s.v.cap := by simp [GS.C, hsOf, hd]
+    by_cases hn : min k ((hsOf s.v s.sys.allocIdx).C - es.length) = 0
+    · simp only [hn, if_true, VM.pure_run]
+      exact ⟨s, [], rfl, by simpa using h, by simp, fun _ => SamePlace.refl _, Calm.refl _⟩
+    · simp only [hn, if_false]
+      obtain ⟨xs, hmk, hvals⟩ := mapM_mkElem_exact
+        ((List.range (min k ((hsOf s.v s.sys.allocIdx).C - es.length))).map (fun (i : Nat) => val + (i : Int))) s
+      have hxl : xs.length = min k ((hsOf s.v s.sys.allocIdx).C - es.length) := by
+        have := congrArg List.length hvals; simpa using this
+      simp only [VM.bind_run, hmk]
+      have hfit : es.length + xs.length ≤ s.v.cap := by rw [hxl, hCc]; omega
+      obtain ⟨v', hft, habs', hsp⟩ := fillTail_spec X
+        { s with sys := { s.sys with nextId := s.sys.nextId +
+          ((List.range (min k ((hsOf s.v s.sys.allocIdx).C - es.length))).map (fun (i : Nat) => val + (i : Int))).length } }
+        es xs h hd hfit
+      rw [hft, hxl]
+      exact ⟨_, xs, rfl, habs', hvals, fun _ => hsp, ⟨rfl, rfl, rfl⟩⟩
+
 /-- non-vacuity: a concrete vector (u32-like elements, capacity 4, one element) meets the hypotheses of the
     `*_fits` theorems -/
 def exX : Ctx := { c := ⟨4, 4, true⟩, m := .debug }
@@ -463,6 +603,8 @@ end MV.Props
 #print axioms MV.Props.C07_resize_fits
 #print axioms MV.Props.C07_insert_fits
 #print axioms MV.Props.C07_append_fits
+#print axioms MV.Props.C07_fill_spare
+#print axioms MV.Props.C07_spare_exact
 #print axioms MV.Props.C07_pop_stable
 #print axioms MV.Props.C07_remove_stable
 #print axioms MV.Props.C07_swap_remove_stable
